@@ -98,6 +98,9 @@ type c09req struct {
 	class string
 	why   string
 	blk   *c09block
+	// seg > 0: the request bytes are written in two pieces, raw[:seg] first (a request may reach the
+	// server's reader in any number of segments)
+	seg int
 }
 
 func (q *c09req) idString() string {
@@ -292,6 +295,9 @@ const (
 const c09clientDeadline = 5 * time.Minute
 
 // c09raw performs one raw exchange on the protocol and reports what the server did.
+// c09segmentedBase+k: like c09closeWrite, the request written as req[:k] and req[k:].
+const c09segmentedBase c09rawMode = 1000
+
 func c09raw(ctx context.Context, h host.Host, srv peer.ID, proto string, req []byte, mode c09rawMode) c09outcome {
 	return c09rawD(ctx, h, srv, proto, req, mode, c09clientDeadline)
 }
@@ -305,6 +311,15 @@ func c09rawD(ctx context.Context, h host.Host, srv peer.ID, proto string, req []
 	}
 	defer s.Reset() //nolint:errcheck // no-op after Close
 	_ = s.SetDeadline(time.Now().Add(c09clientDeadline))
+	if seg := int(mode) - int(c09segmentedBase); seg > 0 && seg < len(req) {
+		// two writes with a pause between them, so that they travel (and are read) as two segments; the
+		// pause only shapes the traffic, nothing is judged by it
+		if _, err := s.Write(req[:seg]); err != nil {
+			return c09outcome{kind: c09errKind(err), err: "write: " + err.Error()}
+		}
+		time.Sleep(40 * time.Millisecond)
+		req = req[seg:]
+	}
 	if len(req) > 0 {
 		if _, err := s.Write(req); err != nil {
 			return c09outcome{kind: c09errKind(err), err: "write: " + err.Error()}
